@@ -130,6 +130,16 @@ def provenance(rep, K):
                 rep.violate('C04.provenance', mod, f, st, f'`{norm(st)}`: an output waveform may only receive TMIN at position 0, current_t at position z_cur, or the terminator '
                             f'(TMAX_OVL / max of the operand terminators)', node=st)
     rep.floor('provenance sites', n, 24)
+    # the pulse filter compares with the time of the last *stored* edge: wherever an edge is stored, previous_t becomes that edge
+    for st in walk_no_nested_funcs(f):
+        if isinstance(st, ast.Assign) and cz(st.targets[0]) == 'cbuf[z_mem+z_cur,sim]' and cz(st.value) == 'current_t':
+            blk = getattr(st, '_parent', None)
+            sibs = blk.body if blk is not None and st in getattr(blk, 'body', []) else getattr(blk, 'orelse', [])
+            okp = any(isinstance(x, ast.Assign) and cz(x) == 'previous_t=current_t' for x in sibs)
+            rep.ob('C04.provenance', 'previous_t = current_t where the edge is stored', okp)
+            if not okp:
+                rep.violate('C04.provenance', mod, f, st, 'where an edge is stored (`cbuf[z_mem + z_cur, sim] = current_t`) previous_t must become current_t: '
+                            'the pulse-width test of the next edge would otherwise compare with an older edge and keep a pulse shorter than the threshold (or drop a wider one)', node=st)
     # (that `delays` is re-bound to exactly one dataset on every selection path is decided by evaluation: C06.dataset, part of depends())
 
 
@@ -350,7 +360,14 @@ def depends(rep, repo):
     """Every transition time on every signal is read from the signal memory the schedule (C07) and the memory map (C08)
     provide and is computed with the delay slice the dataset selection (C06.dataset) picks: a change that breaks those
     mechanisms puts another signal's transitions, or another dataset's delays, into a waveform. Rule ids keep their prefix."""
-    from checks import c06, c07, c08
+    from checks import c03, c06, c07, c08
+    K = Kernel(repo)
+    # every edge time is produced by the merge loop of _wave_eval: its kernel rules (initial value, toggle parity, waveform bounds,
+    # agreement of the four operand arms) are part of this check (rule ids keep their C03. prefix)
+    c03.initial_value(rep, K)
+    c03.parity(rep, K)
+    c03.bounds(rep, K)
+    c03.siblings(rep, K)
     c07.schedule_rules(rep, repo)
     c08.map_rules(rep, repo)
     c06.dataset_selection(rep, repo, repo.mod('wave_sim'))
